@@ -641,6 +641,12 @@ func (u *Updater) AddInTapBip32Derivation(inIndex int, tapBip32Derivation TapDer
 		return ErrInputIndexOutOfRange
 	}
 
+	for _, d := range u.Pset.Inputs[inIndex].TapBip32Derivation {
+		if bytes.Equal(d.PubKey, tapBip32Derivation.PubKey) {
+			return ErrInDuplicatedField("taproot bip32 derivation")
+		}
+	}
+
 	p := u.Pset.Copy()
 	if p.Inputs[inIndex].TapBip32Derivation == nil {
 		p.Inputs[inIndex].TapBip32Derivation = make([]TapDerivationPathWithPubKey, 0)
